@@ -53,6 +53,8 @@ class MultiVector:
             values = list(values)
 
         # Sanitize input
+        if keys is not None:
+            keys = tuple(keys)  # The keys are looked at more than once, they may be given as an iterator.
         if isinstance(values, Mapping):
             keys, values = zip(*values.items()) if values else (tuple(), list())
             values = list(values)
